@@ -118,11 +118,30 @@ def _gen_graph(rng, gtype):
     return {"n": n, "edges": es}
 
 
+PORTS = ["n", "s", "sw", "f0", "f0:sw", "_", "c"]
+ATTRS = ["node [color=red]", "edge [style=dashed]", "graph [rankdir=LR]",
+         "node [shape=record]", "rankdir=LR"]
+
+
 def _gen_dot(rng, directed):
     """A dot text from a small grammar whose meaning is known: node and edge
     statements, some of them inside (nested, anonymous, cluster) subgraphs;
-    the graph denoted is the union of everything mentioned."""
+    edge endpoints may carry a port ('2:n' is vertex 2) or be a subgraph
+    ('1 -> { 2 3 }' is an edge to every vertex mentioned inside);
+    default-attribute statements mean nothing.  The graph denoted is the
+    union of everything mentioned."""
     ids = rng.sample([1, 2, 3, 4, 5, 7, 10, 11, 12], rng.randint(1, 6))
+    fancy = rng.random() < 0.4
+
+    def endpoint(depth):
+        r = rng.random()
+        if not fancy or r < 0.6:
+            return rng.choice(ids)
+        if r < 0.8 or depth >= 2:
+            return ["port", rng.choice(ids), rng.choice(PORTS),
+                    rng.random() < 0.3]
+        return ["subep", rng.choice(["", "", "subgraph", "subgraph e%d" %
+                                     depth]), stmts(depth + 1)]
 
     def stmts(depth):
         out = []
@@ -130,8 +149,10 @@ def _gen_dot(rng, directed):
             r = rng.random()
             if r < 0.35:
                 out.append(["node", rng.choice(ids)])
+            elif fancy and r < 0.42:
+                out.append(["attr", rng.choice(ATTRS)])
             elif r < 0.8 or depth >= 2:
-                a, b = rng.choice(ids), rng.choice(ids)
+                a, b = endpoint(depth), endpoint(depth)
                 if a != b:
                     out.append(["edge", a, b])
             else:
@@ -148,13 +169,25 @@ def _gen_dot(rng, directed):
 def _dot_text(d):
     arrow = " -> " if d["directed"] else " -- "
 
+    def ep(x, ind):
+        if isinstance(x, int):
+            return "%d" % x
+        if x[0] == "port":
+            return ('"%d":%s' if len(x) > 3 and x[3] else "%d:%s") % (
+                x[1], x[2])
+        return "%s {\n%s\n%s}" % (x[1], "\n".join(render(x[2], ind + "  ")),
+                                  ind)
+
     def render(st, ind):
         lines = []
         for x in st:
             if x[0] == "node":
                 lines.append("%s%d;" % (ind, x[1]))
+            elif x[0] == "attr":
+                lines.append("%s%s;" % (ind, x[1]))
             elif x[0] == "edge":
-                lines.append("%s%d%s%d;" % (ind, x[1], arrow, x[2]))
+                lines.append("%s%s%s%s;" % (ind, ep(x[1], ind), arrow,
+                                            ep(x[2], ind)))
             else:
                 lines.append("%s%s {" % (ind, x[1]))
                 lines += render(x[2], ind + "  ")
@@ -169,18 +202,39 @@ def _dot_text(d):
 
 def _dot_reference(d, gtype):
     nodes, edges = set(), set()
+    unusual = []
+
+    def members(x):
+        """The vertices an edge endpoint stands for."""
+        if isinstance(x, int):
+            return {x}
+        if x[0] == "port":
+            unusual.append("port")
+            return {x[1]}
+        unusual.append("subgraph")
+        return walk(x[2])
 
     def walk(st):
+        """All the vertices mentioned in the statements (nested ones too)."""
+        mine = set()
         for x in st:
             if x[0] == "node":
-                nodes.add(x[1])
+                mine.add(x[1])
+            elif x[0] == "attr":
+                pass
             elif x[0] == "edge":
-                nodes.update(x[1:3])
-                edges.add((x[1], x[2]))
+                A, B = members(x[1]), members(x[2])
+                mine.update(A | B)
+                edges.update((a, b) for a in A for b in B)
             else:
-                walk(x[2])
+                unusual.append("subgraph")
+                mine.update(walk(x[2]))
+        nodes.update(mine)
+        return mine
 
     walk(d["stmts"])
+    if any(a == b for a, b in edges):
+        return graphref.Gray("a loop")
     rank = {v: i for i, v in enumerate(sorted(nodes), start=1)}
     if d["directed"]:
         ref = RefDirected(len(nodes))
@@ -195,8 +249,21 @@ def _dot_reference(d, gtype):
         for a, b in edges:
             ref.add(rank[a], rank[b])
     v = graphref.Valid(ref)
-    v.may_refuse = any(x[0] == "sub" for x in d["stmts"])
+    # "a graph consistent with the text or ValueError": the reader may
+    # decline subgraphs and ports, it must not misread them
+    v.may_refuse = bool(unusual)
     return v
+
+
+def _nest_text(nest, fmt):
+    """Deeply nested text (a few hundred bytes are enough to exhaust the
+    stack of a recursive descent parser)."""
+    k = nest["depth"]
+    if fmt == "dot":
+        return "graph { " + "{ " * k + (" }" * k + " }"
+                                        if nest["closed"] else "")
+    return "graph [ " + "a [ " * k + (" ]" * k + " ]"
+                                      if nest["closed"] else "")
 
 
 def generate(rng, config):
@@ -207,6 +274,20 @@ def generate(rng, config):
         return {"type": gtype, "format": "dot", "dot": d,
                 "text": _dot_text(d), "load": _gen_load(rng, "dot"),
                 "faults": []}
+    if config == "text" and rng.random() < 0.02:
+        gtype = rng.choice(["simple", "digraph", "dag"])
+        fmt = rng.choice(["dot", "gml"])
+        if fmt == "dot" and gtype != "simple":
+            gtype = "simple"
+        return {"type": gtype, "format": fmt,
+                # (pydot needs time exponential in the depth until, from
+                # about 45 levels on, the stack is exhausted first: 20 levels
+                # take an hour; speed is not what this check decides)
+                "nest": {"depth": rng.choice([3, 6, 60, 300, 3000]
+                                             if fmt == "dot" else
+                                             [3, 30, 300, 600, 3000]),
+                         "closed": rng.random() < 0.6},
+                "load": _gen_load(rng, fmt), "faults": []}
     if config == "text":
         fmt = rng.choice(["kthlist", "kthlist", "dimacs", "matrix"])
         if fmt == "matrix":
@@ -232,6 +313,7 @@ def generate(rng, config):
         # the locale of the process (what open() without an encoding uses)
         case["locale"] = rng.choice([None, None, None, "ascii", "latin-1",
                                      "cp1252"])
+        case["k2p"] = fmt == "kthlist" and gtype in ("dag", "digraph")
     if config == "roundtrip" and rng.random() < 0.35:
         # the graph that was read is written again, possibly in another
         # format, and read again (files are converted between tools)
@@ -440,9 +522,53 @@ def _hops(G, ref, case, fs, ctx, gtype, where):
         ctx.probe("graph converted between formats after reading")
 
 
+def _k2p(data, case, fs, ctx, ref, where):
+    """The stored kthlist file goes through the tool that exists to read
+    such files, 'kthlist2pebbling -i <file>': same graph, hence the pebbling
+    formula of the reference graph."""
+    from checks import clirun
+    from detsim.refmodels import cnfref
+    fs.put("k2p.kthlist", data)
+    tofile = case["load"]["explicit"]
+    argv = ["-i", "k2p.kthlist"] + (["-o", "k2p.cnf"] if tofile else ["-q"])
+    out = clirun.run_tool("kthlist2pebbling", argv, fs)
+    if tofile and out.exc is None and out.status == 0:
+        # (with the header, which carries the name of the graph)
+        out.stdout = fs.data("k2p.cnf").decode("utf-8", "replace")
+    ctx.fault("read_by:kthlist2pebbling")
+    ctx.log("k2p", out.status)
+    if out.exc is not None or out.status != 0:
+        raise Violation("C14/roundtrip-load-failed/kthlist2pebbling/%s" % (
+            exc_signature(out.exc, REPO) if out.exc is not None
+            else "status-%d" % out.status),
+            "%s\nlocale=%r\nstderr=%r\nstored=%r" % (
+                where, case.get("locale"), out.stderr[:300], data[:400]))
+    got = cnfref.read_dimacs(out.stdout)
+    if not isinstance(got, cnfref.Valid):
+        raise Violation("C14/roundtrip-differs/kthlist2pebbling/output",
+                        "%s\n%r" % (where, out.stdout[:400]))
+    want = [(v,) for v in range(1, ref.n + 1) if not ref.pred(v)]
+    want += [tuple([-u for u in sorted(ref.pred(v))] + [v])
+             for v in range(1, ref.n + 1) if ref.pred(v)]
+    want += [(-v,) for v in range(1, ref.n + 1) if not ref.succ(v)]
+    norm = lambda cls: sorted(tuple(sorted(c)) for c in cls)   # noqa: E731
+    if got.n != ref.n or norm(got.clauses) != norm(want):
+        raise Violation("C14/roundtrip-differs/kthlist2pebbling",
+                        "%s\npebbling formula of another graph: %d vars %r" %
+                        (where, got.n, got.clauses[:12]))
+    ctx.probe("kthlist file read by kthlist2pebbling")
+
+
 def _reference(data, fmt, gtype, case=None):
     if fmt == "dot" and case is not None and "dot" in case:
         return _dot_reference(case["dot"], gtype)
+    if case is not None and "nest" in case:
+        if not case["nest"]["closed"]:
+            return graphref.Invalid("truncated")
+        v = graphref.Valid(RefSimple(0) if gtype == "simple"
+                           else RefDirected(0))
+        v.may_refuse = True
+        return v
     try:
         text = data.decode("utf-8")
     except UnicodeDecodeError:
@@ -519,6 +645,9 @@ def execute(case, ctx):
     fmt = case["format"]
     ld = case["load"]
     with open_router(fs):
+        if "nest" in case:
+            case = dict(case, text=_nest_text(case["nest"], fmt))
+            ctx.fault("deep_nesting")
         if "text" in case:
             data = case["text"].encode("utf-8")
             res = _load(data, case, fs, ctx, gtype)
@@ -527,6 +656,11 @@ def execute(case, ctx):
             ctx.nontrivial = len(data) > 6
             _judge(data, res, ctx, fmt, gtype, "assembled text load=%r" %
                    (ld,), case=case)
+            if "dot" in case and res[0] == "ok":
+                if '":' in case["text"]:
+                    ctx.probe("dot: quoted endpoint with a port read")
+                elif ":" in case["text"]:
+                    ctx.probe("dot: endpoint with a port read")
             rr = _reference(data, fmt, gtype, case)
             if isinstance(rr, graphref.Valid) and res[0] == "ok":
                 _hops(res[1], rr.graph, case, fs, ctx, gtype,
@@ -599,6 +733,9 @@ def execute(case, ctx):
                 ctx.probe("round trip with >= 10 vertices")
             if ltype == gtype or gtype != "digraph":
                 _hops(res[1], ref, case, fs, ctx, ltype, where)
+            if case.get("k2p") and fmt == "kthlist" and \
+                    ref.kind == "digraph" and ref.is_dag():
+                _k2p(data, case, fs, ctx, ref, where)
             # the in-house writers must also satisfy the reference reader
             rr = _reference(data, fmt, gtype)
             if rr is not None and not isinstance(rr, graphref.Valid):
